@@ -289,6 +289,29 @@ def drain(F, R):
         R.ob('C07.drain', '%s|shutdown|clear_queues' % d.name, bool(closers) and not (rets & b.reachable(0, avoid=closers)),
              'Dispatcher::shutdown can complete without close()/drop_sink()/force_close() (-> clear_queues): pending sends / readiness futures stay unresolved')
         R.ob('C07.drain', '%s|shutdown|drop_payload' % d.name, bool(dps) and not (rets & b.reachable(0, avoid=dps)), 'Dispatcher::shutdown does not fail the streaming payload reader')
+        # ... and it fails the slot the PayloadChunk arm feeds, not some other cell
+        def slots(body, blocks=None):
+            out = set()
+            for xb, t in body.calls():
+                nm = callee_name(t) or ''
+                if blocks is not None and xb not in blocks:
+                    continue
+                if re.search(r'Cell::<T>::(take|set|replace)$', nm) and t['args']:
+                    p0 = op_place(t['args'][0])
+                    for dd in (body.whole_defs(p0['l']) if p0 else []):
+                        if dd[2] == 'assign' and dd[3]['rv']['k'] == 'ref':
+                            for e in place_proj(dd[3]['rv']['place']):
+                                if isinstance(e, dict) and e.get('f') == 'payload':
+                                    out.add((e.get('adt'), e['f']))
+            return out
+        fed = slots(d.call, d.arm('PayloadChunk'))
+        failed = set()
+        for xb, t in b.calls_to(r'::drop_payload$'):
+            for q in F.call_targets(t):
+                if q in F.bodies:
+                    failed |= slots(F.bodies[q])
+        R.ob('C07.drain', '%s|shutdown|fails-the-payload-slot-the-chunks-are-fed-to' % d.name, bool(fed) and fed <= failed,
+             'payload chunks are fed through %s but shutdown() fails %s: a reader of a streamed payload is never told that the connection ended' % (sorted(map(str, fed)), sorted(map(str, failed))), b.loc(0))
         ys = set(b.yields())
         early = ys & b.reachable(0, avoid=closers)
         R.ob('C07.drain', '%s|shutdown|closes-before-first-await' % d.name, bool(closers) and not early,
